@@ -271,7 +271,26 @@ func (w *world) runBackup(vid uint32, dir string) (string, error) {
 		return out.String(), fmt.Errorf("weed backup did not finish within 120s")
 	}
 	w.backupMs = append(w.backupMs, time.Since(t0).Milliseconds())
+	releasePreallocation(dir)
 	return out.String(), err
+}
+
+// releasePreallocation gives back the disk blocks `weed backup` preallocates beyond the end
+// of its volume files (its local compaction step asks for 30 GiB per run and the compacted
+// file becomes the new .dat): truncating a file to its own size frees them and changes
+// neither its length nor its content. Without this every backup directory of a history
+// pins 30 GiB of disk until the run ends.
+func releasePreallocation(dir string) {
+	entries, err := ioutil.ReadDir(dir)
+	if err != nil {
+		return
+	}
+	for _, e := range entries {
+		if e.IsDir() {
+			continue
+		}
+		_ = os.Truncate(filepath.Join(dir, e.Name()), e.Size())
+	}
 }
 
 func copyFile(src, dst string) error {
